@@ -239,8 +239,9 @@ class AdaptiveThresholder(SoftBitThresholder):
         """
         # Handle LLR inputs by converting to probability space for thresholding
         if self.input_type == InputType.LLR:
-            # Convert LLRs to probabilities using sigmoid: P(bit=0) = 1 / (1 + exp(-LLR))
-            x_prob = torch.sigmoid(x)
+            # Convert LLRs to probabilities of a one. A positive LLR means bit 0 (as in
+            # LLRThresholder and the soft demodulators): P(bit=1) = 1 / (1 + exp(LLR))
+            x_prob = torch.sigmoid(-x)
         else:
             x_prob = x
 
@@ -371,8 +372,14 @@ class MinDistanceThresholder(SoftBitThresholder):
         # Find closest reference point for each input value
         min_indices = torch.argmin(distances, dim=1)
 
-        # Map back to bit values (assuming ref_points[0] maps to bit 0)
-        result = min_indices.float()
+        # Map back to bit values
+        if self.input_type == InputType.LLR:
+            # A positive LLR means bit 0: the sign of the nearest reference LLR decides (the
+            # default reference points are [-2, 2], i.e. index 0 is the reference for bit 1)
+            result = (self.ref_points[min_indices] < 0).float()
+        else:
+            # ref_points[0] maps to bit 0
+            result = min_indices.float()
 
         # Reshape back to original dimensions
         return result.reshape(original_shape)
